@@ -17,11 +17,14 @@ import ast
 import hashlib
 import importlib
 import itertools
+import os
 import sys
 import types
 from typing import Any, Dict, Optional, Set, Tuple
 
-REPO = "/repo"
+# the tree under analysis; the registered commands always use /repo -- the override exists only so that
+# scripts/ (seeded changes, benign refactors) can run the same checks on scratch worktrees in parallel
+REPO = os.path.realpath(os.environ.get("VT_REPO", "/repo"))
 _ids = itertools.count(1)
 
 
